@@ -55,6 +55,128 @@ theorem add_new_appends (h : Store) (l : List ObjId) (p : Par) (hp : p.name ∉ 
   simp only [addParameter, this]
   refine ⟨rfl, rfl, by simp, fun i hi => by simp [hi]⟩
 
+/-! ## Two-pass bulk setters: all or nothing
+
+For each of `setParametersValues`, `matchParametersValues`, `setAllParametersValues`:
+* `bulk_atomic_*` (no hypothesis at all — any heap, any lists, shared objects, even duplicated
+  names): the call succeeds exactly when the first pass accepts every matching value; otherwise it
+  raises (ConstraintException / ParameterNotFoundException) and the heap is *unchanged*;
+* `bulk_applies_*` (names of the iterated list pairwise different, which `names_unique` gives for
+  every reachable list): on success every matching target holds the source's value, every other
+  object is untouched, no name or constraint changed, nothing was allocated. -/
+
+theorem bulk_atomic_setParametersValues (h : Store) (l src : List ObjId) :
+    let r := setParametersValues h l src
+    (r.err = none ↔
+      ∀ s ∈ src, ∀ t, find? h l (nameOf h s) = some t → (h.get t).rejects (h.get s).value = false) ∧
+    (∀ e, r.err = some e → e = .constraint ∧ r.heap = h) := by
+  simp only [setParametersValues]
+  cases c : checkSome h l src with
+  | none =>
+    have ne := applySome_noerr h l src h (SameShape.refl h) (fun _ => Or.inl rfl) (checkSome_none.1 c)
+    exact ⟨⟨fun _ => checkSome_none.1 c, fun _ => ne⟩, fun e he => by rw [ne] at he; cases he⟩
+  | some e =>
+    refine ⟨⟨fun x => (by cases x), fun x => ?_⟩, fun e' he => ?_⟩
+    · rw [checkSome_none.2 x] at c; cases c
+    · cases he; exact ⟨checkSome_some c, rfl⟩
+
+theorem bulk_applies_setParametersValues (h : Store) (l src : List ObjId) (nd : (names h src).Nodup)
+    (ok : (setParametersValues h l src).err = none) :
+    let r := setParametersValues h l src
+    SameShape h r.heap ∧ r.heap.next = h.next ∧
+    (∀ s ∈ src, ∀ t, find? h l (nameOf h s) = some t → (r.heap.get t).value = (h.get s).value) ∧
+    (∀ i, (∀ s ∈ src, find? h l (nameOf h s) ≠ some i) → r.heap.get i = h.get i) := by
+  have chk := ((bulk_atomic_setParametersValues h l src).1).1 ok
+  have c := checkSome_none.2 chk
+  simp only [setParametersValues, c]
+  exact (applySome_spec l src h nd chk).2
+
+theorem bulk_atomic_matchParametersValues (h : Store) (l src : List ObjId) :
+    let r := matchParametersValues h l src
+    (r.err = none ↔
+      ∀ s ∈ src, ∀ t, find? h l (nameOf h s) = some t → (h.get t).rejects (h.get s).value = false) ∧
+    (∀ e, r.err = some e → e = .constraint ∧ r.heap = h ∧ r.pos = []) := by
+  simp only [matchParametersValues]
+  cases c : checkSome h l src with
+  | none =>
+    have ne := matchSome_noerr h l src h 0 (SameShape.refl h) (fun _ => Or.inl rfl) (checkSome_none.1 c)
+    exact ⟨⟨fun _ => checkSome_none.1 c, fun _ => ne⟩, fun e he => by rw [ne] at he; cases he⟩
+  | some e =>
+    refine ⟨⟨fun x => (by cases x), fun x => ?_⟩, fun e' he => ?_⟩
+    · rw [checkSome_none.2 x] at c; cases c
+    · cases he; exact ⟨checkSome_some c, rfl, rfl⟩
+
+/-- **match_flag_exact** (with `bulk_applies` for `matchParametersValues`): the out-vector is
+`diffPos`, i.e. exactly the source positions whose target value differed before the call
+(`mem_diffPos`, `diffPos_sorted`); the returned flag is `pos ≠ []` by construction. -/
+theorem bulk_applies_matchParametersValues (h : Store) (l src : List ObjId) (nd : (names h src).Nodup)
+    (ok : (matchParametersValues h l src).err = none) :
+    let r := matchParametersValues h l src
+    r.pos = diffPos h l 0 src ∧ SameShape h r.heap ∧ r.heap.next = h.next ∧
+    (∀ s ∈ src, ∀ t, find? h l (nameOf h s) = some t → (r.heap.get t).value = (h.get s).value) ∧
+    (∀ i, (∀ s ∈ src, find? h l (nameOf h s) ≠ some i) → r.heap.get i = h.get i) := by
+  have chk := ((bulk_atomic_matchParametersValues h l src).1).1 ok
+  have c := checkSome_none.2 chk
+  simp only [matchParametersValues, c]
+  exact (matchSome_spec l src h 0 nd chk).2
+
+/-- **match_flag_exact**, read-out: a position is reported iff it is a source position whose name
+is in the target list and whose value differed from the target's before the call; positions are
+reported in increasing order, each once. -/
+theorem match_flag_exact (h : Store) (l src : List ObjId) (nd : (names h src).Nodup)
+    (ok : (matchParametersValues h l src).err = none) :
+    let r := matchParametersValues h l src
+    (∀ p, p ∈ r.pos ↔ ∃ s t, src[p]? = some s ∧ find? h l (nameOf h s) = some t ∧
+        (h.get t).value ≠ (h.get s).value) ∧
+    r.pos.Pairwise (· < ·) := by
+  have e := (bulk_applies_matchParametersValues h l src nd ok).1
+  simp only [e]
+  refine ⟨fun p => ?_, diffPos_sorted h l src 0⟩
+  rw [mem_diffPos]; simp
+
+/-- `testParametersValues` raises like the setters and otherwise answers whether some position differs -/
+theorem test_flag_exact (h : Store) (l src : List ObjId) :
+    testParametersValues h l src =
+      match checkSome h l src with
+      | some e => .error e
+      | none => .ok (!(diffPos h l 0 src).isEmpty) := by
+  unfold testParametersValues
+  cases checkSome h l src with
+  | none => simp only [testSome_eq h l src 0]
+  | some e => rfl
+
+theorem bulk_atomic_setAllParametersValues (h : Store) (l src : List ObjId) :
+    let r := setAllParametersValues h l src
+    (r.err = none ↔
+      ∀ i ∈ l, ∃ j, find? h src (nameOf h i) = some j ∧ (h.get i).rejects (h.get j).value = false) ∧
+    (∀ e, r.err = some e → (e = .notfound ∨ e = .constraint) ∧ r.heap = h) := by
+  simp only [setAllParametersValues]
+  cases c : checkAll h src l with
+  | none =>
+    have ne := applyAll_noerr h src l h (SameShape.refl h) (fun _ _ => rfl) (checkAll_none.1 c)
+    exact ⟨⟨fun _ => checkAll_none.1 c, fun _ => ne⟩, fun e he => by rw [ne] at he; cases he⟩
+  | some e =>
+    refine ⟨⟨fun x => (by cases x), fun x => ?_⟩, fun e' he => ?_⟩
+    · rw [checkAll_none.2 x] at c; cases c
+    · cases he; exact ⟨checkAll_some c, rfl⟩
+
+theorem bulk_applies_setAllParametersValues (h : Store) (l src : List ObjId) (nd : (names h l).Nodup)
+    (ok : (setAllParametersValues h l src).err = none) :
+    let r := setAllParametersValues h l src
+    SameShape h r.heap ∧ r.heap.next = h.next ∧
+    (∀ i ∈ l, ∀ j, find? h src (nameOf h i) = some j → (r.heap.get i).value = (h.get j).value) ∧
+    (∀ i, i ∉ l → r.heap.get i = h.get i) := by
+  have chk := ((bulk_atomic_setAllParametersValues h l src).1).1 ok
+  have c := checkAll_none.2 chk
+  simp only [setAllParametersValues, c]
+  exact (applyAll_spec src l h nd chk).2
+
+/-- non-vacuity of `bulk_atomic`: a rejected entry in second position, nothing changes -/
+example :
+    let s := run State.init [.add 0 ⟨"a", 1, some ⟨.fin 0, .fin 2, true, true⟩⟩, .add 0 ⟨"b", 1, some ⟨.fin 0, .fin 2, true, true⟩⟩,
+                              .add 1 ⟨"a", 2, none⟩, .add 1 ⟨"b", 3, none⟩]
+    (setParametersValues s.heap (s.lists 0) (s.lists 1)).err = some .constraint := by decide
+
 /-! ## The two defects of the unchanged tree (both repaired in the library) -/
 
 /-- before the repair, `setParameter(1, Parameter("a"))` on `[a, b]` gave the names `[a, a]` -/
